@@ -226,12 +226,15 @@ func RunCheck(c *CheckCtx) int {
 			items = append(items[k:], items[:k]...)
 		}
 		if !c.selfTest(items) {
-			// harness nondeterminism: never a VIOLATION (DESIGN §2.5)
-			c.notes = append(c.notes, "determinism self-test failed: exploration skipped")
+			// Some schedule of some scenario gave two different traces. The exploration still
+			// runs (a change to the library that makes executions nondeterministic, e.g. by
+			// multiplying goroutines, must not switch the check off), nothing is called
+			// exhaustive, and a violation is reported only if its witness reproduces 5/5
+			// (DESIGN §2.5).
+			c.notes = append(c.notes, "determinism self-test failed: exploration not exhaustive, violations need a 5/5 reproducible witness")
 			c.capped = true
-		} else {
-			c.explore(items)
 		}
+		c.explore(items)
 	}
 	if pd.After != nil {
 		pd.After(c)
